@@ -288,6 +288,10 @@ class AlignInt(AbsInt):
     used_mapping_assumption = False
 
     def model(self, st, b, frame, bi, t, fn, args):
+        if fn.endswith(('ptr::const_ptr::<impl *const T>::add', 'ptr::mut_ptr::<impl *mut T>::add',
+                        'ptr::const_ptr::<impl *const T>::byte_add', 'ptr::mut_ptr::<impl *mut T>::byte_add')) and len(args) == 2:
+            # p.add(n) on a byte pointer: the same buffer, n bytes further (only u8 element pointers occur here)
+            return ('bin', 'Add', args[0], args[1])
         if fn.endswith('slice::from_raw_parts') or fn.endswith('slice::from_raw_parts_mut'):
             return ('rawslice', args[0], args[1], b.path)
         for suf in self.aligned_ptr_fns:
